@@ -372,6 +372,14 @@ impl GlobalScheduler {
         // 2) the `Simulation` object takes the lock, increments simulation time
         //    and runs the simulation step,
         // 3) this method takes the lock and schedules the now-outdated action.
+        //
+        // A periodic action with a null period would be re-scheduled at its own
+        // deadline forever.
+        if let Some((_, period)) = action.next() {
+            if period.is_zero() {
+                return Err(SchedulingError::NullRepetitionPeriod);
+            }
+        }
         let mut scheduler_queue = self.scheduler_queue.lock().unwrap();
 
         let now = self.time();
